@@ -169,6 +169,9 @@ static void LedgerFree(void* p) noexcept {
 #endif
   h->epoch = kFreed;
   if (gQuarantine) {
+    // parked, not reused, and scribbled over: whoever still reads the block (a destructor that runs late, a callback list walked
+    // after the node died) finds garbage instead of the last contents
+    std::memset(p, 0xFB, h->size);
     if (gParkedN == gParkedCap) {
       gParkedCap = gParkedCap == 0 ? 4096 : gParkedCap * 2;
       gParked = static_cast<void**>(std::realloc(gParked, gParkedCap * sizeof(void*)));
